@@ -72,6 +72,8 @@ BUILD_CLASSES = [
                                     r"expected .struct exo_win_\w+. but argument is of type .struct exo_win_\w+c.|"
                                     r"passing 'struct exo_win_\w+' to parameter of incompatible type 'struct exo_win_\w+'")),
     ("unsized-array", re.compile(r"array size missing|storage size of .* isn.t known|definition of variable with array type needs an explicit size")),
+    ("window-to-tensor-param", re.compile(r"expected .(?:const )?\w+ \*. but argument is of type .struct exo_win_\w+.|"
+                                         r"passing 'struct exo_win_\w+' to parameter of incompatible type '(?:const )?\w+ \*'")),
     ("const-window-write", re.compile(r"assignment of read-only location|read-only variable is not assignable|cannot assign to variable .* with const-qualified")),
 ]
 
@@ -129,7 +131,7 @@ def run(ck: common.Check):
     if not private_interp(ck):
         return
     workers = int(os.environ.get("C02_WORKERS", "10"))
-    remaining = budget - (time.time() - t_start) - (25 if not ck.thorough else 90)
+    remaining = budget - (time.time() - t_start) - (45 if not ck.thorough else 120)
     # when a proof or a correspondence stream is broken the search is what produces the failing input: give it time
     deadline = time.time() + max(remaining, 150 if ck.broken else 45)
     n_inputs = n(3, 5)
